@@ -253,7 +253,8 @@ class CreditsDriver(MachineDriver):
     def fingerprint(self):
         now = self.loop.time()
         g = self.m.game
-        return (self.units, self.cum % self.p.window, self.free, g.num_players if g else None,
+        return (self.units, self.m.variables.get_machine_var("credit_units"), self.m.variables.get_machine_var("credits_string"),
+                self.cum % self.p.window, self.free, g.num_players if g else None,
                 None if self.frac_at is None else r6(self.frac_at - now),
                 None if self.exp_at is None else r6(self.exp_at - now), self.rel_timers(), self.modes_fp(), self.task_fp(),
                 self.timer_ambiguous, (g.player.ball if g.player else None, g.ending) if g else None,
